@@ -92,7 +92,7 @@ def run(ctx):
   ctx.borrow(c17.rule_stateless, "R-C11-COMB", lambda r: r.where.endswith("BatchMultiplyG"))
   ctx.expect("R-C11-COMB", 4, "reduction, multiplier, tiling, Horner")
   ctx.expect("R-C11-SCALAR", 2, "Multiply and MultiplyAffine")
-  ctx.expect("R-C11-FORMULA", 16, "16 formula blocks")
+  ctx.expect("R-C11-FORMULA", 18, "16 formula blocks")
   ctx.expect("R-C11-DISPATCH", 12, "special-case tables")
   ctx.expect("R-C11-CURVES", 10, "nine curves + constructor")
 
@@ -321,6 +321,25 @@ def rule_formula(ctx):
                  "conversion differs: x %s y %s" % (rx, ry))
     if n < 1:
       ctx.incomplete(R, f.where, "formula", "no formula store found")
+    # dispatch: BatchInverse answers None exactly for z = 0 (the point at infinity): the formula is stored only where the inverse is known not to be None,
+    # the point at infinity (or nothing, for the x-only variant that starts from None) only where it is known to be None
+    dprobs = []
+    for e in stores(w, "res"):
+      if e.data.get("synthetic"):
+        continue
+      v = e.data["value"]
+      const_store = (isinstance(v, Seq) and all(isinstance(x, Const) for x in v.items)) or isinstance(v, Const)
+      invs = [t_ for x_ in (v.items if isinstance(v, Seq) else [v]) if isinstance(x_, Poly) for t_ in x_.all_atoms()
+              if t_.kind == "idx" and "BatchInverse" in repr(t_.args[0])]
+      def knows(is_none):
+        op = "Is" if is_none else "IsNot"
+        return any(fc[0] == "cmp" and fc[1] == op and isinstance(fc[2], Poly) and "BatchInverse" in repr(fc[2]) and isinstance(fc[3], Const) and fc[3].v is None for fc in e.facts) or \
+            (not is_none and any(fc[0] == "truthy" and isinstance(fc[1], Poly) and "BatchInverse" in repr(fc[1]) for fc in e.facts))
+      if const_store and not knows(True):
+        dprobs.append("the point at infinity is stored on a path that does not know the shared inverse is None (z = 0)")
+      if not const_store and invs and not knows(False):
+        dprobs.append("the conversion formula is applied on a path that does not know the shared inverse exists (z != 0)")
+    ctx.record(R, f.where, "infinity <=> no inverse (z = 0)", not dprobs, "; ".join(sorted(set(dprobs))) or "formula only where the inverse exists, infinity only where it does not")
   # BatchAddList
   f, w = walk(repo, "BatchAddList")
   n = 0
